@@ -29,3 +29,7 @@ MODULES["C09"] += ["QuillModel.Props.C09Progress"]
 THEOREMS["C09"] += ["Backend.C09_blocked_queue_drains", "Backend.C09_blocked_call_resumes_concurrent"]
 THEOREMS["C06"] += ["Backend.C06_flush_log_returns_concurrent_retry"]
 MODULES["C06"] += ["QuillModel.Props.C09Progress"]
+# lift round (w2_lifts): C05 on the observable event log (Props/C05Write.lean, helpers Backend/LiftOrder.lean)
+THEOREMS["C05"] += ["Backend.C05_writes_follow_pops", "Backend.C05_write_is_of_popped", "Backend.C05_write_order",
+                    "Backend.C05_write_order_at_sink", "Backend.C05_write_order_pairs", "Backend.PA.InvO.closed"]
+MODULES["C05"] += ["QuillModel.Props.C05Write"]
